@@ -151,6 +151,7 @@ def run_err_family(fam, st):
     n = 0
     seen = 0
     parts, part = fam.get("parts", 1), fam.get("part", 0)
+    pre = fam.get("pre")
 
     def one(e):
         nonlocal n, seen
@@ -159,6 +160,13 @@ def run_err_family(fam, st):
             return
         n += 1
         dmg = (fi ^ e).to_bytes(len(frame), "big")
+        if pre:  # history: the same damaged bytes were first handled with validation off
+            try:
+                RTCMReader.parse(dmg, validate=0)
+                if pre == "v0+good":
+                    RTCMReader.parse(frame, validate=1)
+            except Exception:  # pylint: disable=broad-except
+                pass
         try:
             RTCMReader.parse(dmg, validate=fam.get("validate", 1))
             res = "accepted"
@@ -169,10 +177,11 @@ def run_err_family(fam, st):
         if pinned.crc24q_table(dmg) == 0:
             raise core.Broken(f"family {fam} produced a pattern the reference CRC does not detect")
         out = core.Outcome()
-        out.bad("damage-not-rejected:" + fam["kind"] + (":validate-flag" if "validate" in fam else ""),
-                f"validate={fam.get('validate', 1)!r}: frame of {len(frame)} B with error pattern {e:#x} ({bin(e).count('1')} bits, span "
+        out.bad("damage-not-rejected:" + fam["kind"] + (":validate-flag" if "validate" in fam else "")
+                + (":after-validate-off" if pre else ""),
+                ("after the same bytes were parsed with validate=0: " if pre else "") + f"validate={fam.get('validate', 1)!r}: frame of {len(frame)} B with error pattern {e:#x} ({bin(e).count('1')} bits, span "
                 f"{e.bit_length() - (e & -e).bit_length() + 1}) -> {res}")
-        st.add({"kind": "err", "len": fam["len"], "e": hex(e),
+        st.add({"kind": "err", "len": fam["len"], "e": hex(e), "pre": pre,
                 "nested": [fam["inner"], fam["bit"]] if fam["kind"] == "nested" else None}, out)
         st.evaluations -= 1
         st.nontrivial -= 1
@@ -302,6 +311,13 @@ def judge(case):
             pinned.frame(items.unknown_payload(ln - 6, 4020, ln) if ln - 6 >= 2
                          else bytes([0x3E] * (ln - 6)))
         dmg = (int.from_bytes(frame, "big") ^ int(case["e"], 16)).to_bytes(ln, "big")
+        if case.get("pre"):
+            try:
+                RTCMReader.parse(dmg, validate=0)
+                if case["pre"] == "v0+good":
+                    RTCMReader.parse(frame, validate=1)
+            except Exception:  # pylint: disable=broad-except
+                pass
         try:
             RTCMReader.parse(dmg, validate=1)
             out.bad("damage-not-rejected:replay", f"pattern {case['e']} on {ln}-byte frame accepted")
@@ -357,6 +373,13 @@ def plan(tier):
     for v in (True, 3, 5, 0x81, 0xFF, 257, 0xFFFF):
         for ln in (6, 25, 64):
             fams.append({"kind": "1bit", "len": ln, "validate": v})
+    # histories: the damaged bytes are first parsed with validation off (and the good frame with
+    # validation on), then with validation on -- an earlier lenient call must not vouch for them
+    for pre in ("v0", "v0+good"):
+        for ln in ([6, 7, 8, 9, 14, 25, 64, 256] if tier == "quick" else list(range(6, 80)) + [256, 1029]):
+            fams.append({"kind": "1bit", "len": ln, "pre": pre})
+        fams.append({"kind": "2bit", "len": 8, "pre": pre})
+        fams.append({"kind": "burst", "len": 9, "maxb": 10, "pre": pre})
     for inner in ((2, 4, 19) if tier == "quick" else (2, 3, 4, 5, 8, 19, 33, 100, 255)):
         for bit in range(10):
             outer = inner | (1 << bit)
